@@ -15,7 +15,7 @@ OCAML = ["fsm"]
 GO = ["fsm", "fsmtable"]
 PROP = "props/C08.v"
 PROOFS = ["proofs/FsmBase.v", "proofs/FsmGraph.v", "proofs/FsmStream.v", "proofs/FsmResult.v", "proofs/FsmWalk.v",
-          "proofs/FsmMain.v", "model/Fsm.v", "model/FsmRunners.v", "gen/FsmTable.v", "lib/LTS.v"]
+          "proofs/FsmMain.v", "proofs/FsmExtra.v", "proofs/FsmCandidate.v", "model/Fsm.v", "model/FsmRunners.v", "gen/FsmTable.v", "lib/LTS.v"]
 GEN = os.path.join(C.COQ, "gen", "FsmTable.v")
 ST = ["New", "Booting", "Running", "Reloading", "Stopping", "Stopped", "Error", "Unknown"]
 
